@@ -1,7 +1,7 @@
 ------------------------------ MODULE Gen_Api ------------------------------
 (* Oracle mode: evaluates SgzApi.Ideal / NeededBlocks and SgzFormat addresses on the cases of a
    JSON file written by the harness and serialises the answers.  One TLC run per shard. *)
-EXTENDS SgzApi, Json, IOUtils, TLC
+EXTENDS SgzReader, Json, IOUtils, TLC
 
 Input == JsonDeserialize(IOEnv.VZ_IN)
 Files == Input.files
@@ -12,10 +12,18 @@ SetToSeq(S) == LET RECURSIVE f(_)
                                                     IN  <<m>> \o f(T \ {m})
                IN  f(S)
 
+\* what the implementation-shaped model (SgzReader!Call) predicts for the call: outcome class and range reads
+ModelOf(F, c) ==
+    LET out == Call(F, c.op, c.a)
+    IN  IF c.op \in {"gen_trace_header", "box_stepped"} THEN [kind |-> "unmodelled", reads |-> <<>>]
+        ELSE IF out.kind = "raise" THEN [kind |-> out.exc, reads |-> <<>>]
+        ELSE [kind |-> "value", reads |-> [r \in 1..Len(PartReads(out)) |-> <<PartReads(out)[r].off, PartReads(out)[r].len>>]]
+
 OutCall(c) ==
     LET F == Files[c.f]
         o == Ideal(F, c.op, c.a)
-    IN  [alts |-> o, needed |-> [k \in 1..Len(o) |-> SetToSeq(NeededBlocks(F, o[k]))]]
+    IN  [alts |-> o, needed |-> [k \in 1..Len(o) |-> SetToSeq(NeededBlocks(F, o[k]))],
+         model |-> IF "model" \in DOMAIN c /\ c.model THEN ModelOf(F, c) ELSE [kind |-> "skipped", reads |-> <<>>]]
 
 \* per file: geometry the format derives, and the address of every unit in raster order of the padded unit grid
 OutFile(F) ==
